@@ -110,14 +110,61 @@ func classify(c *Config, v *kit.Violation) *kit.Violation {
 	return v
 }
 
-func execC19(c Config, _ *kit.Env) kit.Outcome {
+// C19Case is a cache run with an optional control script on the top cache.
+type C19Case struct {
+	Cfg   Config     `json:"cfg"`
+	Steps []CtrlStep `json:"steps,omitempty"`
+}
+
+func genC19(r *kit.Rand, t kit.Tier) C19Case {
+	n := 1
+	if r.Chance(1, 3) {
+		n = 2
+	}
+
+	c := C19Case{Cfg: GenConfig(r, t, GenOpts{OnlyCaches: n})}
+
+	if r.Chance(1, 3) {
+		// pause / drain, invalidate or flush with filters, enable — in the middle of traffic
+		tm := uint64(0)
+
+		for i := 0; i < r.Range(1, 3); i++ {
+			tm += uint64(r.PickInt(500, 2000, 5000, 20000, 60000))
+			stop := r.PickInt(0, 0, 1) // pause twice as likely as drain: in-flight work stays frozen
+			c.Steps = append(c.Steps, CtrlStep{Target: "L1", Cmd: stop, At: tm, Wait: true})
+			verb := r.PickInt(4, 4, 5)
+			st := CtrlStep{Target: "L1", Cmd: verb, Wait: true}
+
+			if r.Chance(1, 2) {
+				for k := 0; k < r.Range(1, 4); k++ {
+					st.Addresses = append(st.Addresses, uint64(r.Intn(64))*64+uint64(r.PickInt(0, 4096, 65536-4096)))
+				}
+			}
+
+			c.Steps = append(c.Steps, st, CtrlStep{Target: "L1", Cmd: 2, Wait: true})
+		}
+	}
+
+	return c
+}
+
+func execC19(cc C19Case, _ *kit.Env) kit.Outcome {
 	var out kit.Outcome
 
+	c := cc.Cfg
 	w := NewWorld()
 	InstallDirectoryMonitor(w, "C19")
 
+	if len(cc.Steps) > 0 {
+		// an invalidate may drop dirty lines of a write-back cache: the flat-memory
+		// oracle does not apply, the directory invariants do
+		w.NoDataCheck = true
+		w.OnBuilt = func(a *Asm) { w.Ctrl = NewCtrlDriver(a, w, cc.Steps) }
+	}
+
 	a := Run(&c, w)
 	fillOutcome(&out, &c, w, a)
+	out.Fault("control-verb(pause|drain,invalidate|flush,enable)-mid-traffic", len(cc.Steps))
 
 	if w.V != nil && len(w.V.Sig) >= 3 && w.V.Sig[:3] == "C19" {
 		out.Violation = w.V
@@ -228,22 +275,31 @@ func init() {
 		Gen:      func(r *kit.Rand, t kit.Tier) Config { return GenConfig(r, t, GenOpts{OnlyCaches: -1}) },
 		Exec:     execC16, Shrink: ShrinkConfig,
 	})
-	kit.Register(kit.Spec[Config]{
+	kit.Register(kit.Spec[C19Case]{
 		ID: "C19", Level: "exploration",
-		Rule: memRule + "monitor after every event handled by a cache: each set's recency order is a permutation of its ways, no two valid blocks with equal (process, line), every valid block sits in the set its line maps to, reader counts >= 0; " +
+		Rule: memRule + "1 run in 3 adds pause|drain -> invalidate|flush (with address filters) -> enable on the top cache in the middle of the traffic; monitor after every event handled by a cache: each set's recency order is a permutation of its ways, no two valid blocks with equal (process, line), every valid block sits in the set its line maps to, reader counts >= 0; " +
 			"distinct = hash of (assembly, request count, events handled, end time); non-trivial = >= 4 requests mixing reads and writes",
 		Assumptions: []string{"the directory is read from the exported component State after each handled event"},
 		Real:        real, Stubs: stubs, FaultKinds: faults,
 		Quick:    kit.Budget{Runs: 15000, WallS: 100, CaseS: 120},
 		Thorough: kit.Budget{Runs: 300000, WallS: 1500, CaseS: 300},
-		Gen: func(r *kit.Rand, t kit.Tier) Config {
-			n := 1
-			if r.Chance(1, 3) {
-				n = 2
+		Gen:  genC19,
+		Exec: execC19,
+		Shrink: func(c C19Case) []C19Case {
+			var out []C19Case
+			for _, q := range ShrinkConfig(c.Cfg) {
+				if len(q.Caches) == 0 {
+					continue
+				}
+
+				out = append(out, C19Case{Cfg: q, Steps: c.Steps})
 			}
 
-			return GenConfig(r, t, GenOpts{OnlyCaches: n})
+			if len(c.Steps) > 0 {
+				out = append(out, C19Case{Cfg: c.Cfg})
+			}
+
+			return out
 		},
-		Exec: execC19, Shrink: ShrinkConfig,
 	})
 }
